@@ -17,7 +17,7 @@ RULE = ("(A) vectors of entries (file_size, compress_size, is_dir) and ZipBombLi
         "combinations are Hypothesis-drawn. (B) real packages (docx/docm/pptx/pptm/xlsx/xlsm/odt/ods/odp/odg/odf/epub) with extra members whose central-directory "
         "sizes are forged to sit on either side of the DEFAULT limits, fed to the extractors with a monitor on ZipFile.open / validate_zipfile. Oracle: independent "
         "reference predicate (exact rationals); extractor raises ExtractionZipBombError iff reference rejects; no member opened before the first validation nor after a "
-        "rejection; validate_zip_bytesio preserves tell(). Non-trivial = some quantity exactly on a threshold and its +/-1 neighbour has the other verdict; distinct by digest.")
+        "rejection; validate_zip_bytesio preserves tell(). (D) one BytesIO opened several times (open_zipfile / validate_zip_bytesio / an extractor) under changing limits and refilled with other packages: every open is judged on its own. Non-trivial = some quantity exactly on a threshold and its +/-1 neighbour has the other verdict; distinct by digest.")
 ASSUMPTIONS = ["entry count: whether directory entries count towards max_entries is not stated by the property; cases where the two readings differ are not judged on that clause",
                "ratio limits are drawn from dyadic rationals so float and exact comparison coincide"]
 
